@@ -8,7 +8,7 @@ Import ListNotations.
    (an eligible class defined so far that carries the tag) - a stale entry is never wrong *)
 Theorem C12_registry_invariant : forall acc sites ops i s t c,
   nth_error sites i = Some s ->
-  In (t, c) (get_reg i (regs (final acc sites ops))) -> carries (defs ops) s c t.
+  In (t, c) (get_reg (i, 0) (regs (final acc sites ops))) -> carries (defs ops) s c t.
 Proof. exact registry_invariant'. Qed.
 Print Assumptions C12_registry_invariant.
 
@@ -17,7 +17,7 @@ Print Assumptions C12_registry_invariant.
    carries t, SuitableVariantNotFound iff there is none, never anything else *)
 Theorem C12_registry : forall acc sites pre i s t present,
   nth_error sites i = Some s -> s_field s = true -> site_ok s (length (defs pre)) = true ->
-  tag_unique (defs pre) s t ->
+  tag_unique (defs pre) s t -> plain_carriers sites (defs pre) s t ->
   exists o, snd (step acc sites (final acc sites pre) (Decode i (Some t) present)) = Some o
             /\ field_spec (defs pre) s t o.
 Proof. exact decode_field_correct. Qed.
@@ -34,6 +34,7 @@ Print Assumptions C12_missing_tag.
 Theorem C12_history_independent : forall acc sites1 sites2 pre1 pre2 i1 i2 s t present1 present2,
   nth_error sites1 i1 = Some s -> nth_error sites2 i2 = Some s -> s_field s = true ->
   defs pre1 = defs pre2 -> site_ok s (length (defs pre1)) = true -> tag_unique (defs pre1) s t ->
+  plain_carriers sites1 (defs pre1) s t -> plain_carriers sites2 (defs pre1) s t ->
   snd (step acc sites1 (final acc sites1 pre1) (Decode i1 (Some t) present1))
   = snd (step acc sites2 (final acc sites2 pre2) (Decode i2 (Some t) present2)).
 Proof. exact history_independent. Qed.
@@ -50,6 +51,7 @@ Print Assumptions C12_eligible_exact.
    supertypes) that accepts; a supertype only if no eligible subclass accepts; NotFound iff nobody accepts *)
 Theorem C12_nofield : forall acc sites pre i s t present,
   nth_error sites i = Some s -> s_field s = false -> site_ok s (length (defs pre)) = true ->
+  no_nested sites (defs pre) s ->
   exists o, step acc sites (final acc sites pre) (Decode i t present) = (final acc sites pre, Some o)
             /\ nofield_spec acc (defs pre) s present o.
 Proof. exact nofield_correct. Qed.
@@ -70,7 +72,7 @@ Print Assumptions C12_tag_unique_decidable.
 (* Remark (not a violation: the property is silent when two eligible classes share a tag): without
    uniqueness the answer depends on the history - a registry filled before the second class was
    defined keeps the first class, a fresh one answers with the last class of the walk. *)
-Definition s_demo : site := Site [0] true false true false false.
+Definition s_demo : site := Site [0] true false true false false false.
 Definition h_stale : list op :=
   [Define [] [] [] []; Define [0] [1] [] []; Decode 0 (Some 1) []; Define [0] [1] [] []].
 Definition h_fresh : list op :=
@@ -82,6 +84,24 @@ Theorem C12_nonunique_order_dependent :
   /\ snd (step acc_req [s_demo] (final acc_req [s_demo] h_fresh) (Decode 0 (Some 1) [])) = Some (OInst 2).
 Proof. vm_compute. repeat split. Qed.
 Print Assumptions C12_nonunique_order_dependent.
+
+(* Remark (documented: "you can't use include_supertypes=True" for the class-level form): a class that declares
+   its own class-level discriminator is a dispatcher over its strict subclasses, so a tag carried by such a
+   class is answered by SuitableVariantNotFound - this is what the hypothesis plain_carriers excludes. *)
+Definition sites_nested : list site :=
+  [Site [0] true false true false true false; Site [1] true false true false true false].
+Definition h_nested : list op := [Define [] [] [] []; Define [0] [1] [] []; Define [1] [2] [] []].
+Theorem C12_class_level_self_excluded :
+  carries (defs h_nested) (Site [0] true false true false true false) 1 1
+  /\ snd (step acc_req sites_nested (final acc_req sites_nested h_nested) (Decode 0 (Some 1) [])) = Some ONotFound
+  /\ snd (step acc_req sites_nested (final acc_req sites_nested h_nested) (Decode 0 (Some 2) [])) = Some (OInst 2).
+Proof.
+  split; [|vm_compute; split; reflexivity].
+  split; [|exists (Cls [0] [1] [] []); split; [reflexivity | left; reflexivity]].
+  left. split; [reflexivity|]. exists 0. split; [left; reflexivity|].
+  apply desc_child. exists (Cls [0] [1] [] []). split; [reflexivity | left; reflexivity].
+Qed.
+Print Assumptions C12_class_level_self_excluded.
 
 (* ---- non-vacuity: the hypotheses of C12_registry hold on a history with a stale registry, a class
    without own tag, a class defined after the first call, and the conclusion pins the late class *)
@@ -100,12 +120,13 @@ Proof.
   - apply (proj1 (C12_tag_unique_decidable h_late s_demo 3 eq_refl)). reflexivity.
   - split; [reflexivity|]. split; [|reflexivity].
     destruct (C12_registry acc_req [s_demo] h_late 0 s_demo 3 [] eq_refl eq_refl eq_refl
-                (proj1 (C12_tag_unique_decidable h_late s_demo 3 eq_refl) eq_refl)) as [o [E S]].
+                (proj1 (C12_tag_unique_decidable h_late s_demo 3 eq_refl) eq_refl)
+                (fun c _ => eq_refl)) as [o [E S]].
     vm_compute in E. injection E as <-. apply S. reflexivity.
 Qed.
 
 (* no-field mode: subclass wins over the base although the base accepts too; base only as a last resort *)
-Definition s_nf : site := Site [0] true true false false false.
+Definition s_nf : site := Site [0] true true false false false false.
 Definition h_nf : list op := [Define [] [] [] [0]; Define [0] [] [] [1]; Define [0] [] [] [2]].
 Example C12_nofield_nonvacuous :
   snd (step acc_req [s_nf] (final acc_req [s_nf] h_nf) (Decode 0 None [0; 2])) = Some (OInst 2)
